@@ -79,11 +79,14 @@ SizeCalls ==
 RoundTripCalls ==
     {Rec("from_bytes", AlgField(ta[1], ta[2]), [bytes |-> ValueOf(ta[1], ta[2])], R("ok", ""),
          [reser |-> ValueOf(ta[1], ta[2])]) : ta \in TypesAlgs}
+\* the lengths tried against a value of `size` bytes: every length 0..2*size+2, and the wrong lengths that are congruent to
+\* the right one modulo 2^8, 2^9 and 2^16 (a length compared after a truncating cast looks right there)
+LenRange(size) == (0..(2 * size + 2)) \cup {size + 256, size + 512, size + 768, size + 65536, size + 131072}
 WriteExactCalls ==
     UNION {{LET size == SizeOf(ta[1], ta[2]) v == ValueOf(ta[1], ta[2])
             IN Rec("write_exact", AlgField(ta[1], ta[2]) @@ [buflen |-> n], [bytes |-> v],
                    R(WriteExactKind(size, n), ""), IF n = size THEN [buf |-> v] ELSE EmptyF)
-            : n \in 0..(2 * SizeOf(ta[1], ta[2]) + 2)} : ta \in TypesAlgs}
+            : n \in LenRange(SizeOf(ta[1], ta[2]))} : ta \in TypesAlgs}
 \* every input length 0..2*size+2 (content: a valid value cut or zero-extended, or arbitrary bytes)
 WrongLenCalls ==
     UNION {{LET size == SizeOf(ta[1], ta[2])
@@ -91,7 +94,7 @@ WrongLenCalls ==
                 inp == IF n <= size THEN Take(v, n) ELSE Cat(v, Lit(Zeros(n - size)))
                 res == DeserByLen(size, n)
             IN Rec("from_bytes", AlgField(ta[1], ta[2]), [bytes |-> inp], res, IF n = size THEN [reser |-> inp] ELSE EmptyF)
-            : n \in 0..(2 * SizeOf(ta[1], ta[2]) + 2)} : ta \in TypesAlgs}
+            : n \in LenRange(SizeOf(ta[1], ta[2]))} : ta \in TypesAlgs}
 \* `==` on public and private keys is equality of the values (C12: "deserializing those bytes yields an equal value"):
 \* a value equals itself and its clone, two independently derived keys differ, and so do private keys that differ in a
 \* single bit (positions that survive X25519 clamping and keep a NIST scalar in range)
@@ -152,7 +155,7 @@ KdfCalls ==
        L \in {0, 1, 32, 64, 255 * 32, 255 * 32 + 1, 255 * 64, 255 * 64 + 1, 65535, 65536, 70000}}
 
 (****************************** PSK bundle ***********************************)
-PskLens == {0, 1, 2, 31, 32, 33, 64, 1000, 65535, 65536, 70000}
+PskLens == {0, 1, 2, 31, 32, 33, 64, 255, 256, 257, 512, 1000, 65535, 65536, 70000}
 \* the rule is about EMPTINESS, not content: all-zero and all-ones strings are ordinary non-empty values
 PskContents(name, n) == {Leaf(name \o ToString(n), n)} \cup (IF n \in {1, 2, 32} THEN {Lit(Zeros(n)), Lit(Fill(255, n))} ELSE {})
 PskCalls ==
